@@ -303,7 +303,7 @@ func init() {
 			case 7:
 				steps = append(steps, st("par_push", c, 0, "scope", sc, "aud", au), Step{Op: "authz_par", C: -1, G: 60})
 			case 8:
-				steps = append(steps, Step{Op: "bearer_assert", C: t.Intn(2), D: int64(t.Intn(2)), V: t.Pick([]string{"ok", "scope_outside", "scope_wild_ok"})})
+				steps = append(steps, Step{Op: "bearer_assert", C: t.Intn(2), D: int64(t.Intn(3)), V: t.Pick([]string{"ok", "scope_outside", "scope_client_only", "scope_client_only", "no_scope", "scope_wild_ok"})})
 			case 9:
 				steps = append(steps, Step{Op: "redeem", C: -1, G: t.Intn(12), P: map[string]string{"scope": pick(scopes, 2), "audience": t.Pick(auds)}})
 			case 10:
@@ -395,7 +395,7 @@ func init() {
 				s.P["redirect"] = "omit"
 			}
 			if c >= 4 && t.Chance(65) {
-				s.P["ro"] = t.Pick([]string{"ok", "ok", "foreign_key", "wrong_alg", "none", "via_uri", "via_uri", "via_uri_unregistered", "both", "expired"})
+				s.P["ro"] = t.Pick([]string{"ok", "ok", "foreign_key", "wrong_alg", "none", "via_uri", "via_uri", "via_uri_unregistered", "via_uri_case", "via_uri_hostcase", "via_uri_query", "both", "expired"})
 				s.P["scope"] = "openid " + s.P["scope"]
 				if strings.HasPrefix(s.P["ro"], "via_uri") && t.Chance(50) {
 					s.P["net"] = t.Pick([]string{"drop", "5xx", "garbage", "delay"})
@@ -530,7 +530,7 @@ func init() {
 					s.P["max_age"] = t.Pick([]string{"1", "10", "60", "3600"})
 				}
 				if t.Chance(30) {
-					s.P["prompt"] = t.Pick([]string{"none", "login", "consent", "login consent"})
+					s.P["prompt"] = t.Pick([]string{"none", "login", "consent", "login consent", "consent login", "select_account login"})
 				}
 				if t.Chance(20) {
 					s.P["hint"] = t.Pick([]string{"same", "other"})
